@@ -89,16 +89,40 @@ def wide_world(g, r):
     return {"kind": "wide", "lines": lines, "k": k}
 
 
+def many_heads_world(g, r):
+    """a publisher with 11-14 lazily merged heads (more than PEER_HEAD_MAX = 10): k sibling commands on one common base,
+    collected without an action in between; subscribers holding exactly the 9/10/11 smallest-id heads, all heads, a random subset"""
+    k = r.range(11, 14)
+    nb = r.choice([1, 2, 4])
+    subsets = [list(range(9)), list(range(10)), list(range(11)), list(range(k)),
+               sorted(r.shuffle(list(range(k)))[:r.range(1, k - 1)]), list(range(k - 10, k))]
+    pub = k + 1
+    nclients = pub + 1 + len(subsets)
+    lines = ["world %d" % nclients, "init 0 %d 8" % g.nn()]
+    g.acts(lines, 0, nb, prio=0)
+    for w in range(1, k + 1):
+        lines.append("feed %d 0" % w)
+    for w in range(1, k + 1):
+        g.acts(lines, w, 1)
+    for w in range(1, k + 1):
+        lines.append("feed %d %d" % (pub, w))                 # publisher: one head per writer, nothing merged
+    subs = []
+    for j, sel in enumerate(subsets):
+        c = pub + 1 + j
+        lines.append("feed %d %d heads=%s" % (c, pub, ",".join(str(x) for x in sel)))
+        subs.append(c)
+    group = [pub] + subs + [0, 1]
+    return {"kind": "manyheads", "lines": lines, "k": nclients, "pairs": [(p, q) for p in group for q in group if p != q]}
+
+
 def add_queries(r, case):
     """dumps of every client, then hello between all ordered pairs"""
     k = case["k"]
     lines = list(case["lines"])
     for c in range(k):
         lines.append("dump %d" % c)
-    for p in range(k):
-        for q in range(k):
-            if p != q:
-                lines.append("hello %d %d" % (p, q))
+    for (p, q) in case.get("pairs") or [(p, q) for p in range(k) for q in range(k) if p != q]:
+        lines.append("hello %d %d" % (p, q))
     return lines
 
 
@@ -111,6 +135,7 @@ def run(ctx):
     r = ctx.rng
     n = 220 if ctx.thorough else 22
     cases = [f13_world(g)] + [hello_world(g, r) for _ in range(n)] + [wide_world(g, r) for _ in range(max(3, n // 6))]
+    cases += [many_heads_world(g, r) for _ in range(12 if ctx.thorough else 2)]
     rp = S.replay_script(ctx)
     if rp:
         base = [l for l in rp if not l.startswith(("hello", "dump"))]
@@ -120,7 +145,8 @@ def run(ctx):
     viol = []
     stats = {"worlds": 0, "hello_pairs": 0, "decisions_no_sync": 0, "decisions_sync": 0, "receiver_without_graph": 0,
              "multi_head_advertisers": 0, "multi_head_receivers": 0, "equal_head_sets": 0, "no_sync_via_equal_hello_head": 0,
-             "no_sync_via_committed_address": 0, "addr_queries": 0, "addr_no_sync": 0, "f13_hits": 0, "max_heads": 0}
+             "no_sync_via_committed_address": 0, "addr_queries": 0, "addr_no_sync": 0, "f13_hits": 0, "max_heads": 0,
+             "advertisers_over_10_heads": 0, "receivers_holding_exactly_10_smallest_of_more": 0}
     known = 0
     for ci, case in enumerate(cases):
         lines = add_queries(r, case)
@@ -183,6 +209,10 @@ def run(ctx):
             cp = S.committed(dp)
             stats["multi_head_advertisers"] += 1 if len(dp["heads"]) > 1 else 0
             stats["max_heads"] = max(stats["max_heads"], len(dp["heads"]))
+            stats["advertisers_over_10_heads"] += 1 if len(dp["heads"]) > 10 else 0
+            if dr is not None and "error" not in dr and len(dp["heads"]) > 10 and \
+                    sorted(h[0] for h in dr["heads"]) == sorted(h[0] for h in dp["heads"])[:10]:
+                stats["receivers_holding_exactly_10_smallest_of_more"] += 1
             if dr is None or "error" in dr:
                 stats["receiver_without_graph"] += 1
                 if dec != "1":
@@ -282,7 +312,8 @@ def run(ctx):
         "evaluations": len(items),
         "distinct_nontrivial": stats["decisions_no_sync"] + stats["addr_no_sync"],
         "rule": "case = (advertiser, receiver) pair of real ClientStates after generated histories of actions, partial and complete syncs "
-                "(multi-head replicas, virtual and materialised merges), or (receiver, arbitrary address); hello_head of both and the "
+                "(multi-head replicas up to 14 lazily merged heads, virtual and materialised merges, receivers holding a prefix / all / a subset "
+                "of the advertiser's heads), or (receiver, arbitrary address); hello_head of both and the "
                 "decision are compared with the Coq model on the global DAG of the world with the policy's merge-id function tabulated; "
                 "non-trivial = the decision was 'no sync'",
         "distribution": stats,
